@@ -40,18 +40,19 @@ Definition final_status (pids : list Z) (pl : Z) (evs : list ws) (st : Z) : Z :=
 
 Lemma wait_loop_fg_step : forall pids pl cc w tl st cw c side,
   is_error w = false -> is_fg pids w = true -> is_continued w = false ->
+  contains cw (ws_pid w) = false ->
   wait_loop pids pl cc (w :: tl) st cw c side =
-  if Nat.leb cc (S cw) then mkr (upd_status pids pl st w) (S c) tl side
-  else wait_loop pids pl cc tl (upd_status pids pl st w) (S cw) (S c) side.
+  if Nat.leb cc (S (length cw)) then mkr (upd_status pids pl st w) (S c) tl side
+  else wait_loop pids pl cc tl (upd_status pids pl st w) (ws_pid w :: cw) (S c) side.
 Proof.
-  intros pids pl cc w tl st cw c side He Hf Hc.
+  intros pids pl cc w tl st cw c side He Hf Hc Hn.
   unfold is_fg in Hf. unfold upd_status, is_fg.
-  cbn [wait_loop]. rewrite He, Hf, Hc.
+  cbn [wait_loop]. rewrite He, Hf, Hc. unfold set_insert. rewrite Hn. cbn [length].
   destruct (is_exited w), (is_stopped w), (is_signaled w); reflexivity.
 Qed.
 
 Lemma wait_loop_bg_step : forall pids pl cc w tl st cw c side,
-  is_error w = false -> is_fg pids w = false -> Nat.leb cc cw = false ->
+  is_error w = false -> is_fg pids w = false -> Nat.leb cc (length cw) = false ->
   exists side',
     wait_loop pids pl cc (w :: tl) st cw c side =
     wait_loop pids pl cc tl st cw (S c) side'.
@@ -75,13 +76,15 @@ Lemma wait_loop_spec : forall pids pl cc evs rest st cw c side,
   (forall w, In w evs -> is_error w = false) ->
   (forall w, In w evs -> is_fg pids w = true -> is_continued w = false) ->
   (exists evs' e, evs = evs' ++ [e] /\ is_fg pids e = true) ->
-  (cw + length (filter (is_fg pids) evs))%nat = cc ->
+  NoDup (map ws_pid (filter (is_fg pids) evs)) ->
+  (forall w, In w evs -> is_fg pids w = true -> contains cw (ws_pid w) = false) ->
+  (length cw + length (filter (is_fg pids) evs))%nat = cc ->
   let r := wait_loop pids pl cc (evs ++ rest) st cw c side in
   r_consumed r = (c + length evs)%nat /\ r_left r = rest /\
   r_status r = final_status pids pl evs st.
 Proof.
   intros pids pl cc evs. induction evs as [|w tl IH];
-    intros rest st cw c side Herr Hcont Hlast Hcnt r.
+    intros rest st cw c side Herr Hcont Hlast Hnd Hfresh Hcnt r.
   - destruct Hlast as (evs' & e & H & _). destruct evs'; discriminate H.
   - assert (Hew : is_error w = false) by (apply Herr; left; reflexivity).
     assert (Herr' : forall x, In x tl -> is_error x = false)
@@ -97,30 +100,39 @@ Proof.
     assert (Hpos : tl <> [] -> (1 <= length (filter (is_fg pids) tl))%nat).
     { intros Hne. destruct Htl as [[-> _]|(evs' & e & -> & Hfe)]; [congruence|].
       rewrite filter_app, app_length. cbn [filter]. rewrite Hfe. cbn [length]. lia. }
-    subst r. cbn [app]. cbn [filter] in Hcnt.
+    assert (Hfresh' : forall x, In x tl -> is_fg pids x = true -> contains cw (ws_pid x) = false)
+      by (intros; apply Hfresh; [right|]; assumption).
+    subst r. cbn [app]. cbn [filter] in Hcnt, Hnd.
     destruct (is_fg pids w) eqn:Hfw.
     + (* a fg event: counted *)
-      cbn [length] in Hcnt.
-      rewrite wait_loop_fg_step by (first [assumption | apply Hcont; [left; reflexivity|assumption]]).
+      cbn [length] in Hcnt. cbn [map] in Hnd.
+      assert (Hnd' : NoDup (map ws_pid (filter (is_fg pids) tl))) by (inversion Hnd; assumption).
+      assert (Hnw : ~ In (ws_pid w) (map ws_pid (filter (is_fg pids) tl))) by (inversion Hnd; assumption).
+      rewrite wait_loop_fg_step by (first [assumption | apply Hcont; [left; reflexivity|assumption]
+                                         | apply Hfresh; [left; reflexivity|assumption]]).
       destruct tl as [|x tl'].
       * cbn [filter length] in Hcnt.
-        replace (Nat.leb cc (S cw)) with true by (symmetry; apply Nat.leb_le; lia).
+        replace (Nat.leb cc (S (length cw))) with true by (symmetry; apply Nat.leb_le; lia).
         cbn. repeat split; lia.
       * assert (1 <= length (filter (is_fg pids) (x :: tl')))%nat by (apply Hpos; discriminate).
-        replace (Nat.leb cc (S cw)) with false by (symmetry; apply Nat.leb_gt; lia).
+        replace (Nat.leb cc (S (length cw))) with false by (symmetry; apply Nat.leb_gt; lia).
         destruct Htl as [[Hnil _]|Htl]; [discriminate Hnil|].
-        specialize (IH rest (upd_status pids pl st w) (S cw) (S c) side Herr' Hcont' Htl).
-        cbn zeta in IH. destruct IH as (I1 & I2 & I3); [lia|].
+        assert (Hfresh2 : forall y, In y (x :: tl') -> is_fg pids y = true -> contains (ws_pid w :: cw) (ws_pid y) = false).
+        { intros y Hy Hfy. unfold contains. cbn [existsb]. apply Bool.orb_false_iff. split.
+          - apply Z.eqb_neq. intro E. apply Hnw. rewrite <- E. apply in_map. apply filter_In. split; assumption.
+          - apply (Hfresh' y Hy Hfy). }
+        specialize (IH rest (upd_status pids pl st w) (ws_pid w :: cw) (S c) side Herr' Hcont' Htl Hnd' Hfresh2).
+        cbn zeta in IH. destruct IH as (I1 & I2 & I3); [cbn [length]; lia|].
         rewrite I1, I2, I3. cbn [length final_status fold_left]. repeat split; lia.
     + (* an event of another child: not counted, never ends the loop *)
       destruct Htl as [[_ Hc]|Htl]; [congruence|].
       assert (Hne : tl <> []).
       { destruct Htl as (evs' & e & -> & _). destruct evs'; discriminate. }
       specialize (Hpos Hne).
-      assert (Hl : Nat.leb cc cw = false) by (apply Nat.leb_gt; lia).
+      assert (Hl : Nat.leb cc (length cw) = false) by (apply Nat.leb_gt; lia).
       destruct (wait_loop_bg_step pids pl cc w (tl ++ rest) st cw c side Hew Hfw Hl)
         as (side' & ->).
-      specialize (IH rest st cw (S c) side' Herr' Hcont' Htl Hcnt).
+      specialize (IH rest st cw (S c) side' Herr' Hcont' Htl Hnd Hfresh' Hcnt).
       cbn zeta in IH. destruct IH as (I1 & I2 & I3).
       rewrite I1, I2, I3. cbn [length final_status fold_left].
       rewrite upd_status_bg by assumption. repeat split; lia.
@@ -203,17 +215,19 @@ Proof.
   assert (Hne : pids <> []).
   { destruct Hlast as (_ & e & _ & Hf). intros ->. discriminate Hf. }
   assert (Hlp : In (last pids 0) pids) by (apply last_In; assumption).
-  assert (Hr : r = wait_loop pids (last pids 0) (length pids) (evs ++ rest) 0 0%nat 0%nat []).
+  assert (Hr : r = wait_loop pids (last pids 0) (length pids) (evs ++ rest) 0 [] 0%nat []).
   { subst r. unfold wait_fg_job. destruct pids; [congruence|reflexivity]. }
-  pose proof (wait_loop_spec pids (last pids 0) (length pids) evs rest 0 0%nat 0%nat []) as L.
+  assert (Hnd' : NoDup (map ws_pid (filter (is_fg pids) evs))).
+  { apply (Permutation_NoDup (Permutation_sym Hperm)). assumption. }
+  pose proof (wait_loop_spec pids (last pids 0) (length pids) evs rest 0 [] 0%nat []) as L.
   cbn zeta in L. rewrite <- Hr in L.
   destruct L as (L1 & L2 & L3).
   { intros w Hw. unfold is_error. apply Z.eqb_neq. apply Hnoerr. assumption. }
   { intros w Hw Hf. unfold is_continued. destruct (Hterm w Hw Hf) as [-> | ->]; reflexivity. }
   { assumption. }
-  { rewrite <- (Permutation_length Hperm), map_length. reflexivity. }
-  assert (Hnd' : NoDup (map ws_pid (filter (is_fg pids) evs))).
-  { apply (Permutation_NoDup (Permutation_sym Hperm)). assumption. }
+  { exact Hnd'. }
+  { intros; reflexivity. }
+  { cbn [length]. rewrite <- (Permutation_length Hperm), map_length. reflexivity. }
   assert (Hst : forall e, In e evs -> ws_pid e = last pids 0 ->
                           (ws_kind e = 0 \/ ws_kind e = 1) /\ r_status r = term_status e).
   { intros e He Hpe.
